@@ -274,9 +274,10 @@ pub fn pke_unseal<B: Backend>(rec: &mut Recorder, st: &mut Stats, blob: &[u8], r
 // ---------------------------------------------------------------- scenarios
 fn small_cost(ver: u32, i: usize) -> (u64, u32, u32) {
     if ver == 1 || ver == 3 {
-        ([1u64, 2, 7, 100, 1000][i % 5], 0, 1)
+        ([1u64, 2, 7, 100, 1000, 10_000, 65_536][i % 7], 0, 1)
     } else {
-        ([8u64, 16, 64, 256, 1024][i % 5] * 1024, [1u32, 2, 3][i % 3], 1)
+        // memory stays small; the number of passes also takes values above libsodium's presets
+        ([8u64, 16, 64, 256, 1024, 8, 16][i % 7] * 1024, [1u32, 2, 3, 4, 5, 6, 10, 17][i % 8], 1)
     }
 }
 
@@ -329,7 +330,7 @@ pub fn roundtrip<B: Backend>(rec: &mut Recorder, st: &mut Stats, cfg: &Cfg) {
     reset(rec, "pw");
     let mut i = 0;
     for pass in &w.passwords {
-        for ci in 0..(if cfg.thorough { 5 } else { 2 }) {
+        for ci in 0..(if cfg.thorough { 8 } else { 3 }) {
             let cost = small_cost(B::VER, i + ci);
             let k = &w.locals[i % w.locals.len()];
             if let Some((_, blob)) = pw_wrap::<B, Local>(rec, st, k, pass, Some(cost), None) {
